@@ -100,9 +100,28 @@ impl HeaderResponseExt for HeaderResponse {
 //@end
 }
 
+pub open spec fn validated_by(rs: Seq<HeaderResponse>, h: ExtendedHeader) -> bool {
+    exists|j: int| 0 <= j < rs.len() && status_of((#[trigger] rs[j]).status_code) == StatusCode::Ok && validated_from(rs[j].body@, h)
+}
 pub open spec fn all_validated(hs: Seq<ExtendedHeader>, responses: Seq<HeaderResponse>) -> bool {
-    forall|i: int| 0 <= i < hs.len() ==> exists|j: int| 0 <= j < responses.len()
-        && status_of(responses[j].status_code) == StatusCode::Ok && validated_from(responses[j].body@, #[trigger] hs[i])
+    forall|i: int| 0 <= i < hs.len() ==> validated_by(responses, #[trigger] hs[i])
+}
+// a permutation of validated headers consists of validated headers
+pub proof fn lemma_perm_validated(a: Seq<ExtendedHeader>, b: Seq<ExtendedHeader>, rs: Seq<HeaderResponse>)
+    requires all_validated(a, rs), a.to_multiset() == b.to_multiset()
+    ensures all_validated(b, rs)
+{
+    assert forall|i: int| 0 <= i < b.len() implies validated_by(rs, #[trigger] b[i]) by {
+        a.to_multiset_ensures();
+        b.to_multiset_ensures();
+        let x = b[i];
+        assert(b.contains(x));
+        assert(b.to_multiset().count(x) > 0);
+        assert(a.to_multiset().count(x) > 0);
+        assert(a.contains(x));
+        let k = choose|k: int| 0 <= k < a.len() && a[k] == x;
+        assert(validated_by(rs, a[k]));
+    }
 }
 pub open spec fn sorted_by_height(s: Seq<ExtendedHeader>) -> bool {
     forall|i: int, j: int| 0 <= i < j < s.len() ==> s[i].h <= s[j].h
@@ -151,23 +170,7 @@ async fn decode_and_verify_responses(
     let ghost before_sort = headers@;
 //@sub E14 "headers.sort_unstable_by_key(|header| header.height());" => "vx_sort_by_height(&mut headers);"
 //@hint before "match (&request.data, headers.len()) {"
-    proof {
-        assert(all_validated(before_sort, responses@));
-        assert forall|i: int| 0 <= i < headers@.len() implies exists|j: int| 0 <= j < responses@.len()
-            && status_of(responses@[j].status_code) == StatusCode::Ok && validated_from(responses@[j].body@, #[trigger] headers@[i]) by {
-            // a sorted permutation contains only elements of the original sequence
-            headers@.to_multiset_ensures();
-            before_sort.to_multiset_ensures();
-            let x = headers@[i];
-            assert(headers@.contains(x));
-            assert(headers@.to_multiset().count(x) > 0);
-            assert(headers@.to_multiset() == before_sort.to_multiset());
-            assert(before_sort.to_multiset().count(x) > 0);
-            assert(before_sort.contains(x));
-            let k = choose|k: int| 0 <= k < before_sort.len() && before_sort[k] == headers@[i];
-            assert(before_sort[k] == headers@[i]);
-        }
-    }
+    proof { lemma_perm_validated(before_sort, headers@, responses@); }
 //@sub E9 "if headers[0].hash().as_bytes() != hash {" => "if vx_bytes_ne(headers[0].hash().as_bytes(), hash) {"
 //@sub E7 "for (header, height) in headers.iter().zip(*start..*start + amount as u64) {"
             let mut __k: usize = 0;
@@ -180,6 +183,176 @@ async fn decode_and_verify_responses(
             {
                 let header = &headers[__k]; let height = *start + __k as u64; __k += 1;
 //@end
+
+// ---------------------------------------------------------------------------
+// C29: the server side (node/src/p2p/header_ex/server.rs)
+// ---------------------------------------------------------------------------
+#[derive(Debug)]
+pub struct StoreError {}
+// the header store as seen by the server: which heights are stored and the stored header of each (C19-C21 are about the store itself)
+pub uninterp spec fn hdr_at(h: u64) -> ExtendedHeader;
+pub uninterp spec fn resp_of(h: ExtendedHeader) -> HeaderResponse;
+pub uninterp spec fn not_found_resp() -> HeaderResponse;
+pub uninterp spec fn invalid_resp() -> HeaderResponse;
+pub struct Store { pub stored: Ghost<ISet<int>>, pub head: Ghost<Option<u64>> }
+impl Store {
+    #[verifier::external_body]
+    pub async fn get_by_height(&self, h: u64) -> (r: Result<ExtendedHeader, StoreError>)
+        ensures r.is_ok() == self.stored@.contains(h as int), r.is_ok() ==> r.unwrap() == hdr_at(h)
+    { unimplemented!() }
+    #[verifier::external_body]
+    pub async fn get_head(&self) -> (r: Result<ExtendedHeader, StoreError>)
+        ensures r.is_ok() == self.head@.is_some(), r.is_ok() ==> r.unwrap() == hdr_at(self.head@.unwrap())
+    { unimplemented!() }
+}
+impl ExtendedHeader {
+    #[verifier::external_body]
+    pub fn to_header_response(&self) -> (r: HeaderResponse) ensures r == resp_of(*self) { unimplemented!() }
+}
+impl HeaderResponse {
+    #[verifier::external_body]
+    pub fn not_found() -> (r: HeaderResponse) ensures r == not_found_resp() { unimplemented!() }
+}
+pub struct Channel {}
+//@const MAX_HEADERS_AMOUNT_RESPONSE @ node/src/p2p/header_ex/server.rs
+
+//@fn - :: parse_request @ node/src/p2p/header_ex/server.rs
+//@props C29
+fn parse_request(request: HeaderRequest) -> (r: Option<(u64, Data)>)
+    ensures
+        r.is_some() == req_valid(request),
+        r.is_some() ==> r.unwrap().0 == request.amount && Some(r.unwrap().1) == request.data,
+//@sub E8 "request.data.map(|data| (request.amount, data))" => "(match request.data { Some(data) => Some((request.amount, data)), None => None })"
+//@end
+
+// the longest run of consecutive stored heights starting at origin, at most n long
+pub open spec fn run_len(stored: ISet<int>, origin: int, n: int) -> int
+    decreases n
+{
+    if n <= 0 || !stored.contains(origin) { 0 } else { 1 + run_len(stored, origin + 1, n - 1) }
+}
+pub proof fn lemma_run_len_prefix(stored: ISet<int>, origin: int, n: int, k: int)
+    requires
+        0 <= k <= n,
+        (forall|i: int| origin <= i < origin + k ==> stored.contains(i)),
+        (k == n || !stored.contains(origin + k)),
+    ensures
+        run_len(stored, origin, n) == k,
+    decreases k
+{
+    if k > 0 { lemma_run_len_prefix(stored, origin + 1, n - 1, k - 1); }
+}
+
+// C29 by height: the longest run of consecutive stored headers starting at the origin, capped at min(amount, 512); or a single not-found
+pub open spec fn by_height_ok(stored: ISet<int>, origin: u64, amount: u64, resp: Seq<HeaderResponse>) -> bool {
+    let n = if amount <= MAX_HEADERS_AMOUNT_RESPONSE { amount as int } else { MAX_HEADERS_AMOUNT_RESPONSE as int };
+    let k = run_len(stored, origin as int, if origin + n <= u64::MAX { n } else { u64::MAX - origin });
+    &&& (k == 0 ==> resp == seq![not_found_resp()])
+    &&& (k > 0 ==> resp.len() == k && forall|j: int| 0 <= j < k ==> #[trigger] resp[j] == resp_of(hdr_at((origin + j) as u64)))
+}
+
+//@fn impl<S, R> HeaderExServerHandler<S, R> :: handle_request_by_height @ node/src/p2p/header_ex/server.rs
+//@props C29
+//@block "async move {"
+async fn handle_request_by_height_task(store: &Store, channel: Channel, origin: u64, amount: u64) -> (res: (Channel, Vec<HeaderResponse>))
+    requires origin >= 1
+    ensures by_height_ok(store.stored@, origin, amount, res.1@)
+//@hint entry
+                let ghost amount0 = amount;
+//@ascribe "let mut responses = vec![];" => "let mut responses: Vec<HeaderResponse> = Vec::new();"
+//@for 1
+//@loop 1
+                    invariant_except_break
+                        responses@.len() == __i1 - origin,
+                    invariant
+                        origin <= __i1 <= __i1_end, __i1_end == (if origin + amount <= u64::MAX { (origin + amount) as u64 } else { u64::MAX }),
+                        amount == (if amount0 <= MAX_HEADERS_AMOUNT_RESPONSE { amount0 } else { MAX_HEADERS_AMOUNT_RESPONSE }),
+                        responses@.len() <= __i1 - origin,
+                        forall|i: int| origin <= i < origin + responses@.len() ==> store.stored@.contains(i),
+                        forall|j: int| 0 <= j < responses@.len() ==> #[trigger] responses@[j] == resp_of(hdr_at((origin + j) as u64)),
+                    ensures
+                        responses@.len() == __i1_end - origin || !store.stored@.contains(origin + responses@.len()),
+                    decreases __i1_end - __i1
+//@sub E9 "responses.reserve_exact(amount as usize);" => ""
+//@sub E9 "responses.reserve_exact(1);" => ""
+//@hint before "if responses.is_empty() {" 2
+                proof {
+                    lemma_run_len_prefix(store.stored@, origin as int, __i1_end - origin, responses@.len() as int);
+                }
+//@hint before "(channel, responses)"
+                proof {
+                    if run_len(store.stored@, origin as int, __i1_end - origin) == 0 { assert(responses@ =~= seq![not_found_resp()]); }
+                }
+//@end
+
+pub struct TmHash { pub v: u64 }
+pub uninterp spec fn stored_by_hash(s: Store, h: TmHash) -> Option<ExtendedHeader>;
+impl Store {
+    #[verifier::external_body]
+    pub async fn get_by_hash(&self, h: &TmHash) -> (r: Result<ExtendedHeader, StoreError>)
+        ensures r.is_ok() == stored_by_hash(*self, *h).is_some(), r.is_ok() ==> r.unwrap() == stored_by_hash(*self, *h).unwrap()
+    { unimplemented!() }
+}
+#[verifier::external_body]
+pub fn vx_vec1(x: HeaderResponse) -> (r: Vec<HeaderResponse>) ensures r@ == seq![x] { vec![x] }
+
+//@fn impl<S, R> HeaderExServerHandler<S, R> :: handle_request_current_head @ node/src/p2p/header_ex/server.rs
+//@props C29
+//@block "async move {"
+//@macro vec => vx_vec1($args)
+async fn handle_request_current_head_task(store: &Store, channel: Channel) -> (res: (Channel, Vec<HeaderResponse>))
+    ensures res.1@ == seq![match store.head@ { Some(h) => resp_of(hdr_at(h)), None => not_found_resp() }]
+//@sub E8 "store .get_head() .await .map(|head| head.to_header_response()) .unwrap_or_else(|_| HeaderResponse::not_found())" => "(match store.get_head().await { Ok(head) => head.to_header_response(), Err(_) => HeaderResponse::not_found() })"
+//@end
+
+//@fn impl<S, R> HeaderExServerHandler<S, R> :: handle_request_by_hash @ node/src/p2p/header_ex/server.rs
+//@props C29
+//@block "async move {"
+//@macro vec => vx_vec1($args)
+async fn handle_request_by_hash_task(store: &Store, channel: Channel, hash: TmHash) -> (res: (Channel, Vec<HeaderResponse>))
+    ensures res.1@ == seq![match stored_by_hash(*store, hash) { Some(h) => resp_of(h), None => not_found_resp() }]
+//@sub E8 "store .get_by_hash(&hash) .await .map(|head| head.to_header_response()) .unwrap_or_else(|_| HeaderResponse::not_found())" => "(match store.get_by_hash(&hash).await { Ok(head) => head.to_header_response(), Err(_) => HeaderResponse::not_found() })"
+//@end
+
+// dispatch (on_request_received): which handler runs for which request; the handlers' effects are recorded in ghost fields
+pub enum Action { Nothing, Invalid, Head, ByHeight(u64, u64), ByHash(Seq<u8>) }
+pub struct PeerId {}
+pub struct Sender { pub sent: Ghost<Action> }
+pub struct HeaderExServerHandler { pub stopping: bool, pub last: Ghost<Action> }
+impl HeaderExServerHandler {
+    #[verifier::external_body]
+    fn handle_invalid_request(&self, sender: &mut Sender, channel: Channel) ensures final(sender).sent@ == Action::Invalid { unimplemented!() }
+    #[verifier::external_body]
+    fn handle_request_current_head(&mut self, channel: Channel) ensures final(self).last@ == Action::Head, final(self).stopping == old(self).stopping { unimplemented!() }
+    #[verifier::external_body]
+    fn handle_request_by_height(&mut self, channel: Channel, origin: u64, amount: u64)
+        ensures final(self).last@ == Action::ByHeight(origin, amount), final(self).stopping == old(self).stopping { unimplemented!() }
+    #[verifier::external_body]
+    fn handle_request_by_hash(&mut self, sender: &mut Sender, channel: Channel, hash: Vec<u8>)
+        ensures final(self).last@ == Action::ByHash(hash@), final(self).stopping == old(self).stopping, final(sender).sent@ == old(sender).sent@ { unimplemented!() }
+
+//@fn impl<S, R> HeaderExServerHandler<S, R> :: on_request_received @ node/src/p2p/header_ex/server.rs
+//@props C29
+    fn on_request_received(
+        &mut self,
+        peer: PeerId,
+        request_id: u64,
+        request: HeaderRequest,
+        response_sender: &mut Sender,
+        response_channel: Channel,
+    )
+        requires old(self).last@ is Nothing, old(response_sender).sent@ is Nothing
+        ensures
+            old(self).stopping ==> final(self).last@ is Nothing && final(response_sender).sent@ is Nothing,
+            !old(self).stopping && !req_valid(request) ==> final(response_sender).sent@ is Invalid && final(self).last@ is Nothing,
+            !old(self).stopping && req_valid(request) ==> final(response_sender).sent@ is Nothing && match request.data {
+                Some(Data::Origin(o)) => if o == 0 { final(self).last@ is Head } else { final(self).last@ == Action::ByHeight(o, request.amount) },
+                Some(Data::Hash(h)) => final(self).last@ == Action::ByHash(h@),
+                None => false,
+            },
+//@sub E9 "header_request::Data" all => "Data"
+//@end
+}
 //@end-export
 } // verus!
 fn main() {}
